@@ -475,6 +475,13 @@ def runExtra (r : Report) (sec line : Nat) (op : String) (obs : List String) : R
     else if kvStr obs "sameA" != "1" || kvStr obs "sameC" != "1" || kvStr obs "sameB" != "1" then
       r := r.violation sec line s!"parser / formatter instances that are alive at the same time influence each other: {joinSp obs}"
     else r := r.addCover "inter-instances-independent"
+  | "seq" =>
+    -- the model's tables (`httpMethods`, `keywords`) are constants: whatever was processed before, a valid source formats
+    if kvStr obs "tables" != "same" then
+      r := r.violation sec line s!"the package-level tables of the token package (HttpMethods / keywords) changed while a source was processed - every later call in the process reads another language: {joinSp obs}"
+    if kvStr obs "other" != "ok" || kvStr obs "same" != "1" then
+      r := r.violation sec line s!"a valid source is rejected or formatted differently after another source was processed in the same process (formatting a valid source must succeed whatever was processed before): {joinSp obs}"
+    else r := r.addCover (if fmt == "ok" then "seq-after-valid" else "seq-after-invalid")
   | "wrerr" =>
     -- AST.Format ignores the error of the writer: format.Source behaves as on a good writer (model of the code that exists)
     if kvStr obs "wr" == fmt then r := r.addCover ("wrerr-" ++ fmt)
@@ -509,6 +516,7 @@ def runSection (r : Report) (s : Section) : Report := Id.run do
     | ["file"] => r := runExtra r s.idx l.idx "file" l.obs
     | ["inter"] => r := runExtra r s.idx l.idx "inter" l.obs
     | ["wrerr"] => r := runExtra r s.idx l.idx "wrerr" l.obs
+    | ["seq"] => r := runExtra r s.idx l.idx "seq" l.obs
     | ["par"] => r := runExtra r s.idx l.idx "par" l.obs
     | ["filex", k] => r := (runExtra r s.idx l.idx "filex" l.obs).addCover ("filex-" ++ k)
     | _ => r := r.mismatch s.idx l.idx "bad-op" (joinSp l.op)
